@@ -17,6 +17,7 @@ package mod_prison
 import (
 	"fmt"
 	"regexp"
+	"sync"
 	"time"
 )
 
@@ -42,6 +43,7 @@ type prisonRule struct {
 	threshold      int32               // threshold period
 	accessDict     *lru_cache.LRUCache // dict store access info
 	prisonDict     *lru_cache.LRUCache // dict store prison info
+	dictLock       *sync.Mutex         // lock for check and update of both dicts
 	accessDictSize int                 // access dict size
 	prisonDictSize int                 // prison dict size
 }
@@ -79,10 +81,12 @@ func (r *prisonRule) initDict(oldRule *prisonRule) {
 		// if oldRule is nil, create new dict
 		r.accessDict = lru_cache.NewLRUCache(r.accessDictSize)
 		r.prisonDict = lru_cache.NewLRUCache(r.prisonDictSize)
+		r.dictLock = new(sync.Mutex)
 	} else {
 		// use old dict instead
 		r.accessDict = oldRule.accessDict
 		r.prisonDict = oldRule.prisonDict
+		r.dictLock = oldRule.dictLock
 
 		// resize dict
 		r.accessDict.EnlargeCapacity(r.accessDictSize)
@@ -100,6 +104,11 @@ func (r *prisonRule) recordAndCheck(req *bfe_basic.Request) bool {
 	if err != nil {
 		return false
 	}
+
+	// check and record should be atomic for accesses with the same sign,
+	// or some accesses are not counted, or are denied by record of others
+	r.dictLock.Lock()
+	defer r.dictLock.Unlock()
 
 	// check whether the access should be denied directyly
 	if deny := r.shouldDeny(sign, req); deny {
